@@ -302,18 +302,16 @@ theorem build_files_roundtrip (fes : List (FileE × Bytes)) (hfiles : c.files = 
 
 /-- **build_valid** (C09 at the built package): it re-parses to itself and satisfies every structural rule of
 `PackageValid` — lead, both headers, signature-header limits, tag types, signature padding, compressor magic, PAYLOADFLAGS,
-rpmlib() features, cpio archive — for configurations that use none of the four content features the builder never declares
-(`C09.PlainFeatures`; without it the rpmlib() clause is false of the current code: `C09.tilde_undeclared`, …) -/
+rpmlib() features (all thirteen), cpio archive -/
 theorem build_valid (archive payload : Bytes) {fes : List (FileE × Bytes)}
     (ok : C09.CfgOk (mkCtx c now (hexOf sha256 payload) (hexOf sha256 archive)) fes)
     (hsha : (shaHex sha256 (writeHeader (C06.hdrOf (mkCtx c now (hexOf sha256 payload) (hexOf sha256 archive))))).length < 67108000)
-    (hp : C09.PlainFeatures c)
     {uid gid : Nat} (hu : uid < 4294967296) (hg : gid < 4294967296)
     (hc : C09.CodecMagic c.compression payload (C09.archiveFor c uid gid fes)) :
     parsePackage (writePackage (build c now (hexOf sha256) archive payload)) = .ok (build c now (hexOf sha256) archive payload)
     ∧ RpmValid.PackageValid (writePackage (build c now (hexOf sha256) archive payload)) (build c now (hexOf sha256) archive payload)
         (C09.archiveFor c uid gid fes) :=
-  C09.build_valid ok hp (sigsOk_nil hsha) hu hg payload hc
+  C09.build_valid ok (sigsOk_nil hsha) hu hg payload hc
 
 /-! ### 6b. `get_file_entries()` of a built package (C06 `readback_file_entries` at `build`'s own signature headers) -/
 
@@ -717,7 +715,7 @@ example : pkgFiles sDecompress sBuilt = .ok [.ok (0, [1, 2, 3])] :=
   build_files_roundtrip C10.tSha256 C06.sampleCfg sNow sFes rfl s_cfgOk.dirs s_cfgOk.fileOk s_shape (by decide) (by decide)
     (uid := 0) (gid := 0) (by decide) (by decide) sCompress sDecompress (fun _ => rfl)
 example : RpmValid.PackageValid (writePackage sBuilt) sBuilt sArchive :=
-  (build_valid C10.tSha256 C06.sampleCfg sNow sArchive sPayload s_cfgOk (by show (shaHex C10.tSha256 (writeHeader (C06.hdrOf sCtx))).length < _; rw [s_sha_len]; decide) C09.sample_plain (uid := 0) (gid := 0)
+  (build_valid C10.tSha256 C06.sampleCfg sNow sArchive sPayload s_cfgOk (by show (shaHex C10.tSha256 (writeHeader (C06.hdrOf sCtx))).length < _; rw [s_sha_len]; decide) (uid := 0) (gid := 0)
     (by decide) (by decide) ⟨sArchive, rfl⟩).2
 /-- the summary theorem at the sample: all its hypotheses are discharged -/
 example := built_package_sound C10.tMd5 C10.tSha1 C10.tSha256 C06.sampleCfg sNow sArchive sPayload (S := C10.T)
